@@ -37,6 +37,10 @@ FRESH = {'dict', 'list', 'sorted', 'tuple', 'set', 'frozenset', 'OrderedDict', '
 TRANSPARENT = {'iter', 'reversed', 'chain', 'take', 'zip', 'enumerate', 'islice', 'dropwhile', 'filter', 'map'}
 
 
+from engine.astutil import strip_stdlib_prefix as _strip
+_ENV = set(ENV_CALLS) | {_strip(x) for x in ENV_CALLS}      # call names are normalised (``shutil.get_terminal_size`` = ``get_terminal_size``)
+
+
 def run(repo, rep):
     rep.explanation = ('R-EFF: C19.a write inventory of the print cone vs allow-list; C19.b value parameters are never '
                        'mutated; C19.c identity / environment do not reach the output; C19.d shared documents immutable.')
@@ -140,7 +144,7 @@ def run(repo, rep):
                           'identity used only for the visited set / recursion marker',
                           '%s uses id(%s): object identity must not influence ordering or text (the allocator history '
                           'would change the output)' % (f.key, src(c.args[0]) if c.args else ''), nontrivial=True)
-            if isinstance(c, ast.Call) and (call_name(c) in ENV_CALLS or call_name(c).split('.', 1)[-1] in ENV_CALLS):
+            if isinstance(c, ast.Call) and (call_name(c) in _ENV or call_name(c).split('.', 1)[-1] in _ENV):
                 if f.key in cone:
                     n += 1
                     rep.fail('C19.c', '%s:env:%s' % (f.qualname, call_name(c)), '%s:%d' % (f.module.relpath, c.lineno),
